@@ -22,7 +22,7 @@ ANCHORS = ["raggedarray/base.py::RaggedBase.ravel", "raggedarray/base.py::Ragged
            "raggedarray/__init__.py::RaggedArray.__array_ufunc__", "raggedarray/__init__.py::RaggedArray.__array_function__", "raggedarray/__init__.py::RaggedArray.__iter__",
            "raggedarray/indexablearray.py::IndexableArray.__setitem__", "raggedarray/base.py::RaggedBase.size"]
 FLOOR_TAGS = ["class:A", "class:B", "plan:everything", "plan:random", "inserted-read-on-lazy", "inserted:meta", "inserted:repr", "inserted:tolist", "inserted:sel", "inserted:sum0",
-              "inserted:ell", "inserted:row", "inserted:maskidx", "class:buffer", "layout:contiguous", "layout:strided", "layout:matrix-column", "layout:reversed"]
+              "inserted:ell", "inserted:row", "inserted:maskidx", "class:buffer", "class:runlength", "variant:2d", "variant:ragged", "variant:1d", "layout:contiguous", "layout:strided", "layout:matrix-column", "layout:reversed"]
 FLOOR_MONITORS = ["c10:pair", "purity-tap", "global-state"]
 N_RANDOM = {"quick": 3000, "thorough": 100000}
 GLOBAL_STATE_MONITOR = True     # reads must not leak into numpy's print options / error state either
@@ -172,7 +172,72 @@ def gen_buffer_case(rng, tier):
     return {"kind": "buffer", "layout": rng.choice(LAYOUTS[:-1]), "lens": lens, "vals": vals, "steps": steps, "plans": plans}
 
 
+RL_READS = ["sum0", "sum1", "any", "all", "max", "mean1", "mean0", "to_array", "repr", "row", "rows", "elem", "plus1", "cmp", "ravel", "col_counts", "neg", "shape"]
+
+
+def run_rlpurity(case):
+    """read-only operations on the run-length classes: after each one the object decodes to what it decoded to before"""
+    lib = CTX.lib
+    dt = np.dtype(case["dtype"])
+    rows = [np.array(r).astype(dt) for r in case["rows"]]
+    variant = case["variant"]
+    tags = ["class:runlength", "variant:" + variant, "kind:" + dt.kind]
+    if variant == "1d":
+        obj = lib.RunLengthArray.from_array(rows[0].copy())
+        decode = lambda: [np.asarray(obj.to_array()).tolist()]
+    elif variant == "2d":
+        obj = lib.RunLength2dArray.from_array(np.array(rows, dtype=dt))
+        decode = lambda: np.asarray(obj.to_array()).tolist()
+    else:
+        obj = lib.RunLengthRaggedArray.from_ragged_array(lib.RaggedArray([r.copy() for r in rows], dtype=dt))
+        decode = lambda: [np.asarray(r_).tolist() for r_ in obj.to_array()]
+    before = decode()
+    n = len(rows)
+    reads = {
+        "sum0": lambda: obj.sum(axis=0), "sum1": lambda: obj.sum(axis=-1), "any": lambda: obj.any(), "all": lambda: obj.all(), "max": lambda: obj.max(axis=-1) if variant != "1d" else obj.max(),
+        "mean1": lambda: obj.mean(axis=-1) if variant != "1d" else obj.mean(), "mean0": lambda: obj.mean(axis=0), "to_array": lambda: obj.to_array(), "repr": lambda: (repr(obj), str(obj)),
+        "row": lambda: obj[0].to_array() if variant != "1d" else obj[0], "rows": lambda: obj[list(range(n))[::-1]] if variant != "1d" else obj[::-1].to_array(),
+        "elem": lambda: obj[0, 0] if variant != "1d" else obj[-1], "plus1": lambda: (obj + 1), "cmp": lambda: (obj > 0), "ravel": lambda: obj.ravel(), "col_counts": lambda: obj.col_counts(),
+        "neg": lambda: np.negative(obj), "shape": lambda: (len(obj), obj.shape, obj.size),
+    }
+    done = []
+    for nm in case["reads"]:
+        CTX.tick("purity-tap")
+        attempt(reads[nm])          # whether this particular read is supported by this variant does not matter here; what it leaves behind does
+        done.append(nm)
+        tags.append("rlread:" + nm)
+        after = attempt(decode)
+        if not after.ok or not deep_same(after.value, before):
+            return violated("%s run-length array of %s rows %s: after the read-only operations %s it decodes to %s, before %s" % (
+                variant, dt, short([r.tolist() for r in rows], 160), done, repr(after) if not after.ok else short(after.value, 160), short(before, 160)), sorted(set(tags)) + ["purity"])
+    return held(sorted(set(tags)), True)
+
+
+def gen_rlpurity(rng, tier):
+    from .. import rl
+    dtype = rng.choice(["int64", "float64", "float64", "float32", "int32", "bool", "uint8"])
+    variant = rng.choice(["1d", "2d", "2d", "ragged", "ragged"])
+    nrows = 1 if variant == "1d" else rng.randint(1, 5)
+    c = rng.randint(1, 8)
+    vclass = "decimal" if (np.dtype(dtype).kind == "f" and rng.random() < 0.5) else "small"
+    rows = []
+    for _ in range(nrows):
+        L = c if variant == "2d" else rng.randint(1, 8)
+        if vclass == "decimal":
+            pool = gen.values(rng, dtype, 3, "decimal").tolist()
+            v = []
+            while len(v) < L:
+                v += [rng.choice(pool)] * rng.randint(1, 3)
+            rows.append(v[:L])
+        else:
+            rows.append(np.resize(rl.gen_runs(rng, dtype, "small", L)[0], L).tolist())
+    reads = [rng.choice(RL_READS) for _ in range(rng.randint(2, 7))]
+    return {"kind": "rlpurity", "dtype": dtype, "variant": variant, "rows": rows, "reads": reads}
+
+
 def run(case):
+    if case.get("kind") == "rlpurity":
+        return run_rlpurity(case)
     if case.get("kind") == "buffer":
         return run_buffer(case)
     steps = case["steps"]
@@ -311,6 +376,8 @@ def directed():
         yield {"steps": steps, "hazard": False, "plans": [{"kind": "everything", "reads": {"0": [["a0", "rowscol", [rows_.copy(), 0]]], "2": [["a1", "rowscol", [rows_.copy(), 0]]]}}]}
     for _ in range(120):
         yield gen_buffer_case(rng, "quick")
+    for _ in range(400):
+        yield gen_rlpurity(rng, "quick")
     for _ in range(250):
         yield with_plans(rng, prog.gen_program(rng, "quick"))
     for _ in range(120):
@@ -322,13 +389,15 @@ def directed():
 
 
 def random_case(rng, tier):
+    if rng.random() < 0.1:
+        return gen_rlpurity(rng, tier)
     if rng.random() < 0.12:
         return gen_buffer_case(rng, tier)
     return with_plans(rng, prog.gen_program(rng, tier, allow_hazard=rng.random() < 0.05, dtype="float64" if rng.random() < 0.3 else "int64", big=rng.random() < 0.08), 2 if tier == "quick" else 3)
 
 
 def classify(case, res):
-    if case.get("kind") == "buffer":
+    if case.get("kind") in ("buffer", "rlpurity"):
         return None
     if case.get("hazard") and any(t in ("final-differs", "raise-differs") or t.startswith("obs-differs") for t in res["tags"]):
         return "F10"
